@@ -197,6 +197,8 @@ def main(argv):
     }
     if covsum is not None:
         coverage['anchor_coverage'] = covsum
+    if stats.tagsets:
+        coverage['distinct_by_kind'] = {k: len(v) for k, v in sorted(stats.tagsets.items())}
     if hasattr(mod, 'finalize'):
         mod.finalize(stats, coverage)
     ev = {
